@@ -1,11 +1,10 @@
 //! `vcheck <ID> [--tier quick|thorough] [--seed N] [--replay FILE] [--strict]`
 #![allow(clippy::type_complexity)]
 
-pub mod engine;
-pub mod props;
-pub mod support;
-
-use engine::{Ctx, Tier};
+use iroh_verif::{
+    engine::{self, Ctx, Tier},
+    props,
+};
 
 fn main() {
     let args: Vec<String> = std::env::args().skip(1).collect();
